@@ -54,6 +54,7 @@ CATCOL = {"s": "s", "h": "h", "C(s)": "s", "T(s)": "s"}
 # grouping expressions: text -> list of factor terms (tuples of factor atoms)
 GROUPINGS = {
     "g": [("g",)],
+    "g2": [("g2",)],
     "g:g2": [("g", "g2")],
     "g + g2": [("g",), ("g2",)],
     "g/g2": [("g",), ("g", "g2")],
@@ -96,12 +97,16 @@ def classify(v):
     case = v.get("case") or {}
     if key in ("coding:rank-deficient", "coding:loses-dimensions", "coding:outside-space"):
         factor = tuple(case.get("factor") or ())
+        # the effect expression of that grouping factor: union over the group terms written for it
+        terms, intercept = [], False
         for gt in case.get("group", []):
             if factor and factor not in [tuple(ft) for ft in GROUPINGS[gt["grouping"]]]:
-                continue  # the violation is about another grouping factor
-            terms, intercept = effect_terms_for_rule(gt["effect"], None)
-            if not contrast_rule.simplified_rule_coincides(terms, intercept):
-                return "group-coding-simplified"
+                continue  # about another grouping factor
+            t, has_int = effect_terms_for_rule(gt["effect"], None)
+            terms += [x for x in t if x not in terms]
+            intercept = intercept or has_int
+        if terms and not contrast_rule.simplified_rule_coincides(terms, intercept):
+            return "group-coding-simplified"
     return key
 
 
@@ -234,6 +239,12 @@ def judge(case, m):
                         case=case, key="cells")
             continue
         p = block.shape[1] // ncell
+        try:
+            nlab = len(G.terms[name].labels)
+        except Exception as e:
+            nlab = f"labels raise {type(e).__name__}"
+        if nlab != block.shape[1]:
+            m.violation("cells-and-terms", f"{name}: {nlab} labels for {block.shape[1]} columns", case=case, key="labels")
         m.ev("block-structure")
         mask = np.zeros_like(block, dtype=bool)
         for j in range(p):
@@ -335,6 +346,27 @@ def gen_cases(tier, seed, i, n):
                 if k % n == i:
                     yield k, {"group": [{"effect": e, "grouping": g}], "crossed": crossed}
                 k += 1
+    # two separately written group terms on the SAME grouping factor, in both orders
+    # (the coding of an effect must not depend on where the group intercept is written)
+    pairs = [("1", e) for e in effs if e != "1" and EFFECTS[e][1]] + \
+            [("0 + x", "0 + s"), ("0 + s", "0 + x"), ("x", "0 + s"), ("0 + s", "x"), ("s", "0 + x:s"), ("0 + x", "s")]
+    for a, b in pairs:
+        for order in ((a, b), (b, a)):
+            for g in ("g", "g:g2", "g + g2"):
+                for crossed in (True, False):
+                    if k % n == i:
+                        yield k, {"group": [{"effect": order[0], "grouping": g}, {"effect": order[1], "grouping": g}],
+                                  "crossed": crossed}
+                    k += 1
+    # `|` distributed over a sum of factors, plus a separately written term on one of them
+    for a, b in [("0 + s", "1"), ("s", "0 + x"), ("0 + x:s", "x"), ("0 + s + h", "1"), ("0 + s", "x")]:
+        for ga, gb in (("g + g2", "g"), ("g + g2", "g2"), ("g*g2", "g:g2"), ("g/g2", "g")):
+            for order in (0, 1):
+                for crossed in (True, False):
+                    gts = [{"effect": a, "grouping": ga}, {"effect": b, "grouping": gb}]
+                    if k % n == i:
+                        yield k, {"group": gts if order == 0 else gts[::-1], "crossed": crossed}
+                    k += 1
     rng = random.Random(seed * 1000003 + i * 13 + 5)
     nrand = (1600 if tier == "quick" else 30000) // n
     for j in range(nrand):
